@@ -130,18 +130,12 @@ def near_value(draw, v):
 
 
 @st.composite
-def json_case(draw):
+def json_op(draw, target, path, keys, want=None):
+    """one operation on `path`, weighted by what the value at the end of the path is in the target document;
+    want = 'cond' (a condition), 'proj' (a projection) or None (either)"""
     from vlib.c29_model import traverse, MISSING
-    keys = draw(st.lists(key_st, min_size=2, max_size=5, unique=True))
-    first = draw(doc_st(keys))
-    docs = [first]
-    for _ in range(draw(st.integers(0, 3))):
-        docs.append(draw(st.one_of(perturbed(first, keys), doc_st(keys))))
-    target = draw(st.sampled_from(docs))
-    path = draw(json_path(target, keys))
     v = traverse(target, [el['k'] for el in path])
     vm = draw(st.sampled_from(['c', 'c', 'p']))
-    # operations weighted by what the value at the end of the path is
     if isinstance(v, list):
         ts = ['in', 'len', 'proj', 'in', 'lencmp', 'truth', 'isnone', 'len']
     elif isinstance(v, dict):
@@ -150,6 +144,10 @@ def json_case(draw):
         ts = ['truth', 'cmp', 'proj', 'isnone', 'in', 'len']
     else:
         ts = ['cmp', 'truth', 'proj', 'cmp', 'cmp', 'truth', 'isnone']
+    if want == 'cond':
+        ts = [t for t in ts if t not in ('proj', 'len')]
+    elif want == 'proj':
+        ts = ['proj', 'proj', 'proj', 'len'] if isinstance(v, list) else ['proj']
     t = draw(st.sampled_from(ts))
     if t in ('cmp', 'isnone') and not path:      # "Cannot compare whole JSON value": only sub-items are comparable
         path = [{'k': draw(st.one_of(st.sampled_from(keys), st.integers(-2, 2))), 'm': vm}]
@@ -174,7 +172,125 @@ def json_case(draw):
         op.update(key=key, km=km, neg=draw(st.booleans()))
     elif t in ('truth', 'isnone'):
         op.update(neg=draw(st.booleans()))
+    return op
+
+
+def _addressable(k):
+    return not any(ch in '"\\' or ord(ch) < 0x20 for ch in k)
+
+
+@st.composite
+def json_docs(draw, addressable=False):
+    ks = key_st.filter(_addressable) if addressable else key_st
+    keys = draw(st.lists(ks, min_size=2, max_size=5, unique=True))
+    first = draw(doc_st(keys))
+    docs = [first]
+    for _ in range(draw(st.integers(0, 3))):
+        docs.append(draw(st.one_of(perturbed(first, keys), doc_st(keys))))
+    return keys, docs
+
+
+@st.composite
+def json_case(draw):
+    keys, docs = draw(json_docs())
+    target = draw(st.sampled_from(docs))
+    path = draw(json_path(target, keys))
+    op = draw(json_op(target, path, keys))
     return {'kind': 'json', 'attr': draw(st.sampled_from(['j', 'r', 'r'])), 'docs': docs, 'op': op}
+
+
+@st.composite
+def sibling_path(draw, target, path, keys):
+    """a copy of path that keeps the query variables (mode 'p' elements with their 'v') and differs in ONE literal
+    component: that element is replaced by a sibling key / index (or a missing one) and the tail is walked again"""
+    from vlib.c29_model import traverse, MISSING
+    consts = [i for i, el in enumerate(path) if el['m'] == 'c']
+    if not consts:
+        return None
+    i = draw(st.sampled_from(consts))
+    parent = traverse(target, [el['k'] for el in path[:i]])
+    old = path[i]['k']
+    if isinstance(parent, dict):
+        cand = [k for k in sorted(parent) if k != old]
+    elif isinstance(parent, list):
+        cand = [k for k in range(len(parent)) if k != old and k - len(parent) != old]
+    else:
+        cand = []
+    if cand and draw(st.integers(0, 5)) != 0:
+        new = draw(st.sampled_from(cand))
+    else:
+        new = draw(st.one_of(st.sampled_from([k for k in keys if k != old] or ['zz']), st.integers(0, 3)))
+        if new == old:
+            return None
+    out = [dict(el) for el in path[:i]] + [{'k': new, 'm': 'c'}]
+    keep_tail = draw(st.integers(0, 2)) != 0
+    if keep_tail:
+        out += [dict(el) for el in path[i + 1:]]          # the same (possibly parameterised) tail under the other branch
+    else:
+        v = traverse(target, [el['k'] for el in out])
+        while len(out) < 3 and isinstance(v, (list, dict)) and v and draw(st.booleans()):
+            k = draw(st.sampled_from(sorted(v))) if isinstance(v, dict) else draw(st.integers(0, len(v) - 1))
+            out.append({'k': k, 'm': 'c'})
+            v = v[k]
+    return out
+
+
+@st.composite
+def json_multi_case(draw):
+    """two (sometimes three) path operations over the same attribute in ONE query: `(c1) and (c2)`, `(c1) or (c2)` or a
+    tuple projection.  Most often the paths use the same query variable(s) and differ only in a literal component;
+    also: all-literal paths, and independent paths with their own variables."""
+    # mostly keys that every path syntax can address: the open finding about keys that need JSON escaping would
+    # otherwise hide many of these cases behind its exclusion
+    keys, docs = draw(json_docs(addressable=draw(st.integers(0, 3)) != 0))
+    target = draw(st.sampled_from(docs))
+    shape = draw(st.sampled_from(['and', 'tuple', 'or', 'and', 'tuple']))
+    want = 'proj' if shape == 'tuple' else 'cond'
+    nparts = draw(st.sampled_from([2, 2, 2, 3]))
+    # first path: at least one element, usually with a variable in it
+    path1 = draw(json_path(target, keys))
+    if not path1:
+        path1 = [{'k': draw(st.one_of(st.sampled_from(keys), st.integers(-2, 2))), 'm': 'c'}]
+    style = draw(st.sampled_from(['shared', 'shared', 'shared', 'literal', 'free']))
+    if style == 'literal':
+        for el in path1: el['m'] = 'c'
+    elif style == 'shared':
+        # exactly the shape that needs care: >= 1 variable and >= 1 literal in the same path
+        if len(path1) == 1:
+            path1 = path1 + [{'k': draw(st.one_of(st.sampled_from(keys), st.integers(0, 2))), 'm': 'c'}]
+        pi = draw(st.integers(0, len(path1) - 1))
+        for i, el in enumerate(path1):
+            if i == pi: el['m'] = 'p'
+        if all(el['m'] == 'p' for el in path1):
+            ci = draw(st.sampled_from([i for i in range(len(path1)) if i != pi]))
+            path1[ci]['m'] = 'c'
+    nvar = 0
+    for el in path1:
+        if el['m'] == 'p':
+            el['v'] = nvar
+            nvar += 1
+    paths = [path1]
+    shared = False
+    while len(paths) < nparts:
+        sib = draw(sibling_path(target, draw(st.sampled_from(paths)), keys)) if style != 'free' or draw(st.booleans()) else None
+        if sib is None:
+            sib = draw(json_path(draw(st.sampled_from(docs)), keys))       # an independent path with its own variables
+            for el in sib:
+                if el['m'] == 'p':
+                    el['v'] = nvar
+                    nvar += 1
+        elif any(el['m'] == 'p' for el in sib):
+            shared = True
+        paths.append(sib)
+    parts = [draw(json_op(target, p, keys, want)) for p in paths]
+    # json_op may have put a fresh element on an empty path: give it a variable number of its own
+    for part in parts:
+        for el in part['path']:
+            if el['m'] == 'p' and 'v' not in el:
+                el['v'] = nvar
+                nvar += 1
+    return {'kind': 'json', 'attr': draw(st.sampled_from(['j', 'r', 'r'])), 'docs': docs,
+            'op': {'t': 'multi', 'shape': shape, 'parts': parts}}
 
 
 # ------------------------------------------------------------------------------------------------
